@@ -163,7 +163,7 @@ example : (tokenizeQuery Gen.srcProg exEnv [33]).words = [] := by decide +kernel
 
 example : plainTitle (tokenizeRecord Gen.srcProg exEnv [65, 98, 99, 32, 100, 101, 102]) =
     [65, 98, 99, 32, 100, 101, 102] := by
-  rw [C12_plain_title_tokenized exEnv toyU_facts tablesOK_en (fun _ => toyStem_bounded _)]
+  rw [C12_plain_title_tokenized exEnv toyU_facts tablesOK_en (toyStemHyp _ (by decide))]
   decide +kernel
 
 example : ∀ res ∈ ((Store.new Gen.srcConsts).run mergeSorter Gen.srcConsts Gen.srcScoreOrder
@@ -174,7 +174,7 @@ example : ∀ res ∈ ((Store.new Gen.srcConsts).run mergeSorter Gen.srcConsts G
         [ApiOp.add 42 [65, 98, 99, 32, 100, 101, 102] 7, .search [], .add 43 [120, 121] 9] ∧
       res.title = (compose Gen.lang_en title).filter (· ≠ 0) :=
   C12_api_title_is_input_src mergeSorter mergeSorter_ok toyU Gen.lang_en toyStem toyU_facts tablesOK_en
-    (fun _ => toyStem_bounded _) _ [33] (by decide +kernel)
+    (toyStemHyp _ (by decide)) _ [33] (by decide +kernel)
 
 end C12bExample
 
